@@ -346,6 +346,10 @@ func chainMode(e *core.Env) {
 	}
 	got, err := simio.Drain(rc, dsched, len(data)+1<<20)
 	rc.Close()
+	if t.Bool("chain.doubleclose", 1, 4) {
+		rc.Close() // a deferred Close next to an explicit one
+		e.Probe("reader closed twice")
+	}
 	if err != nil {
 		e.Fail("decode-error", attrs, "chain %v: reading (%d of %d bytes): %v", descs, len(got), len(data), err)
 		return
